@@ -33,9 +33,11 @@ OPEN_STATEMENTS = [
     'covered here by the oracle against the operator built from the tensors by the checker',
     'matvec_sound (matvec_term_sound + matvec_linear), diagonal_term_sound and parallel_matvec_sound are proved at the '
     'level stated in Properties/C06.lean (per term resp. per entry); diagonal_sound covers the sum over the terms',
-    'truncated boson matrices: boson_term_sound_partial relates the Model column (amplitude sqrt(R)) of a word that '
-    'does not hit the cut-off to the polynomial Spec up to diag(sqrt(n!)); the cut-off, the index arithmetic, the '
-    'float sum over terms and the QuadOperator route are numeric correspondence only',
+    'truncated boson matrices: every column of a ladder word is proved against the truncated polynomial Spec, cut-off '
+    'branch and mixed-radix index arithmetic included (boson_column_sound, boson_truncation_restricts, '
+    'boson_index_bijection, boson_term_sound_partial), up to diag(sqrt(n!)) stated without square roots; the float '
+    'sum over terms with sqrt amplitudes and the QuadOperator route (q, p as combinations of ladder matrices) are '
+    'numeric correspondence only',
     'expectation / variance: proved for the Model\'s sparse-matrix form (expectation_vec_sound, '
     'expectation_density_sound, expectation_pure_consistent, variance_def, second_moment_hermitian_only) and tied '
     'to the source by an exact correspondence run on the implementation\'s own matrices; LinearOperator '
